@@ -556,6 +556,83 @@ def xfvar_targets():
     return [RawTarget('xf_aipw_var', txt, ['estimate', 'parts', 'n'], ['variance'])]
 
 
+def gate_targets():
+    """check_input_data: which rows survive entry.  Both branches of `if drop_censoring:` must (a) count the complete rows with
+    data.dropna(<subset>), (b) keep exactly those rows -- either unchanged (the counts agree) or through the same dropna -- and
+    (c) in the keep-missing-outcome branch raise the missing flag when a kept row lacks the outcome.  <subset> is read from the
+    source: no argument / every column -> the whole row must be complete; every column but `outcome` -> only the outcome may
+    be missing.  Rows are Model.Gate.raw records (exposure, covariates, outcome as options)."""
+    fn = find_function(ast.parse(open(CUTILS).read()), 'check_input_data')
+    tops = [st for st in fn.body if isinstance(st, ast.If) and ast.unparse(st.test) == 'drop_censoring']
+    if len(tops) != 1:
+        raise TranslateError('expected one `if drop_censoring:` in check_input_data')
+
+    def subset_kind(call):
+        """data.dropna(...) / data.copy().dropna(...) -> 'all' | 'non-outcome'"""
+        if not (isinstance(call, ast.Call) and isinstance(call.func, ast.Attribute) and call.func.attr == 'dropna'):
+            raise TranslateError('not a dropna call: %s' % ast.unparse(call))
+        base = ast.unparse(call.func.value)
+        if base not in ('data', 'data.copy()'):
+            raise TranslateError('dropna on %s' % base)
+        if call.args:
+            raise TranslateError('dropna with positional arguments')
+        kw = {k.arg: ast.unparse(k.value) for k in call.keywords}
+        if kw == {} or kw == {'subset': '[d for d in data.columns]'}:
+            return 'all'
+        if kw == {'subset': '[d for d in data.columns if d != outcome]'}:
+            return 'non-outcome'
+        raise TranslateError('dropna subset %r' % kw)
+
+    def branch(stmts, want_flag):
+        kinds = []
+        flag_seen = False
+        if not (isinstance(stmts[0], ast.Assign) and ast.unparse(stmts[0].targets[0]) == 'valid_obs'
+                and ast.unparse(stmts[0].value).endswith('.shape[0]')):
+            raise TranslateError('branch does not start by counting valid_obs')
+        kinds.append(subset_kind(stmts[0].value.value.value))
+        chk = stmts[1]
+        if not (isinstance(chk, ast.If) and ast.unparse(chk.test) == 'valid_obs != data.shape[0]'):
+            raise TranslateError('expected `if valid_obs != data.shape[0]:`')
+        drop = [b for b in chk.body if isinstance(b, ast.Assign) and ast.unparse(b.targets[0]) == 'data']
+        keep = [b for b in chk.orelse if isinstance(b, ast.Assign) and ast.unparse(b.targets[0]) == 'data']
+        if len(drop) != 1 or len(keep) != 1:
+            raise TranslateError('the two ways of keeping rows changed shape')
+        dv, kv = drop[0].value, keep[0].value
+        if not (ast.unparse(dv).endswith('.reset_index(drop=True)') and ast.unparse(kv) == 'data.copy().reset_index(drop=True)'):
+            raise TranslateError('kept rows are no longer re-labelled 0..n-1 without carrying the caller\'s index: %s / %s'
+                                 % (ast.unparse(dv)[-60:], ast.unparse(kv)))
+        kinds.append(subset_kind(dv.func.value))
+        if kinds[0] != kinds[1]:
+            raise TranslateError('rows counted (%s) and rows kept (%s) differ' % tuple(kinds))
+        for st in stmts[2:]:
+            u = ast.unparse(st)
+            if isinstance(st, ast.If) and ast.unparse(st.test) == 'valid_obs != data.dropna(subset=[outcome]).shape[0]':
+                body = [ast.unparse(b) for b in st.body]
+                orelse = [ast.unparse(b) for b in st.orelse]
+                if body != ['miss_flag = True', "data['__missing_indicator__'] = np.where(data[outcome].isna(), 0, 1)"] or \
+                        orelse != ['miss_flag = False', "data['__missing_indicator__'] = 1"]:
+                    raise TranslateError('missing-outcome flag block changed')
+                flag_seen = True
+            elif u in ('miss_flag = False', "data['__missing_indicator__'] = 1"):
+                continue
+            else:
+                raise TranslateError('statement `%s` in check_input_data' % u[:60])
+        if want_flag != flag_seen:
+            raise TranslateError('missing-outcome flag computed in the wrong branch')
+        return kinds[0]
+    k_all = branch(tops[0].body, False)
+    k_keep = branch(tops[0].orelse, True)
+    PRED = {'all': 'is_some (rx r) && forallb is_some (rc r) && is_some (ry r)',
+            'non-outcome': 'is_some (rx r) && forallb is_some (rc r)'}
+    txt = ('Definition gate_drop_all_Q (rows : list raw) : list raw := filter (fun r => %s) rows.\n'
+           'Definition gate_keep_Q (rows : list raw) : list raw := filter (fun r => %s) rows.\n'
+           '(* valid_obs != number of kept rows with an outcome *)\n'
+           'Definition miss_flag_Q (rows : list raw) : bool :=\n'
+           '  negb (Nat.eqb (length (gate_keep_Q rows)) (length (filter (fun r => is_some (ry r)) (gate_keep_Q rows)))).'
+           % (PRED[k_all], PRED[k_keep]))
+    return [RawTarget('check_input_data', txt, ['rows'], ['kept rows', 'missing flag'])]
+
+
 GROUPS = {
     'tmle': tmle_targets,
     'calc': calc_targets,
@@ -568,6 +645,7 @@ GROUPS = {
     'wprod': wprod_targets,
     'gfmarg': gfmarg_targets,
     'xfvar': xfvar_targets,
+    'gate': gate_targets,
 }
 
 
@@ -582,7 +660,7 @@ def generate(groups=None):
         try:
             ts = fn()
             r = HEADER_R + '\n' + '\n\n'.join(t.coq() for t in ts) + '\n'
-            q = HEADER_Q + ('From Zepid Require Import Base.QSum Base.QAgg.\n' if g in ('pool', 'gfmarg') else '') + ('From Zepid Require Import Base.QSum Base.QAgg Base.Rows Model.Estimators.\n' if g == 'xfvar' else '') + '\n' + '\n\n'.join(t.coq_q() for t in ts) + '\n'
+            q = HEADER_Q + ('From Zepid Require Import Base.QSum Base.QAgg.\n' if g in ('pool', 'gfmarg') else '') + ('From Zepid Require Import Base.QSum Base.QAgg Base.Rows Model.Estimators.\n' if g == 'xfvar' else '') + ('From Zepid Require Import Model.Gate.\n' if g == 'gate' else '') + '\n' + '\n\n'.join(t.coq_q() for t in ts) + '\n'
             side[g] = [t.sidecar() for t in ts]
             err = None
         except (TranslateError, SyntaxError, OSError) as e:
